@@ -126,7 +126,7 @@ def run(ctx):
         if it[0] == "map" and it[3] == regs and it[1] == it[2]:
             b = it[2]
             poly = ("map", T.call("list", (T.idx(T.attr(tess, "vertices"), ("bv", 1)),)), ("bv", 1), b, T.TRUE)
-            far = T.cmp("Gt", T.call("numpy.max", (T.call(f"{TE}.distance_matrix", (poly,)),)), md)
+            far = T.cmp("Gt", T.call("max", (T.call(f"{TE}.distance_matrix", (poly,)),)), md)
             want = T.b_and(T.ige(T.call("len", (b,)), 1), T.b_not(("in", T.num(-1), b)), far)
             ok = T.alpha(it[4]) == T.alpha(want) and e.args == (("bv", e.loops()[-1][1]),)
     ctx.check(ok, "GUARD", f"{ri.qualname} / GUARD / removed iff bounded and its largest corner distance exceeds max_distance", ctx.where(ri),
